@@ -48,8 +48,21 @@ SetName(S, name, node) ==
     [S EXCEPT !.cur[name] = Entry(<<node>>), !.all[name] = @ \cup {node}]
 
 \* ---- FunctionScope.get_local in the collecting phase (stacked_scopes.py:1121)
-UseName(S, v, useid) ==
+\* a use inside a nested function g: Scope.get (stacked_scopes.py:715) looks the name up in the enclosing
+\* FunctionScope with the key (varname, g's node) each time g's body is visited in g's collecting state, i.e. once
+\* while f is collected and once more while f is checked (name_check_visitor.py:2281-2320)
+UseNested(S, v, useid) ==
     IF S.cur[v].present
+    THEN [S EXCEPT !.usage[useid] = Entry((IF @.present THEN @.nodes ELSE << >>) \o S.cur[v].nodes)]
+    ELSE S
+\* `nonlocal v; v = <id>` inside a nested function: visit_Nonlocal (name_check_visitor.py:2583) finds the defining
+\* scope with `varname in scope` (name_to_all_definition_nodes) and FunctionScope.set (stacked_scopes.py:1104)
+\* forwards the assignment to it -- at the place where g is DEFINED
+SetNonlocal(S, v, node) == IF S.all[v] # {} THEN SetName(S, v, node) ELSE S
+
+UseName(S, v, useid) ==
+    IF S.phase = "check" THEN S          \* the checking phase only reads usage_to_definition_nodes
+    ELSE IF S.cur[v].present
     THEN [S EXCEPT !.usage[useid] = Entry((IF @.present THEN @.nodes ELSE << >>) \o S.cur[v].nodes)]
     ELSE S            \* not a local at this point: falls through to the enclosing scopes
 
@@ -136,6 +149,9 @@ VisitStmt(s, S) ==
     CASE s.k = "assign"   -> SetName(S, s.v, s.id)
       [] s.k = "use"      -> UseName(S, s.v, s.id)
       [] s.k = "call"     -> S
+      [] s.k = "defg"     -> UseNested(S, s.v, s.id)
+      [] s.k = "defn"     -> SetNonlocal(S, s.v, s.id)
+      [] s.k = "callg"    -> S             \* calling g has no effect on f's scope
       [] s.k \in {"return", "raise"} -> SetName(S, "LS", s.id)
       [] s.k \in {"break", "continue"} -> SetName(S, "LL", s.id)
       [] s.k = "if" ->
@@ -159,8 +175,7 @@ VisitStmt(s, S) ==
                 e == InSub(s.orelse, O1)
                 O2 == Combine(e.st, <<bodyscope2, e.scope>>, FALSE)
                 \* second visit of the body in the collecting phase
-                second == InSub(s.body, O2)
-                O3 == second.st
+                O3 == IF S.phase = "collect" THEN InSub(s.body, O2).st ELSE O2
                 noexit == always /\ \A i \in 1..Len(loopscopes) : ~HasLL(loopscopes[i])
             IN IF noexit THEN SetName(O3, "LS", s.id) ELSE O3
       [] s.k = "with" ->
@@ -184,9 +199,27 @@ Visit(block, S) == IF block = << >> THEN S ELSE Visit(Tail(block), VisitStmt(Hea
 
 \* ---- a whole function body ------------------------------------------------------
 MaxId == 12
-S0 == [cur |-> EmptyScope, usage |-> [u \in 1..MaxId |-> Absent], all |-> [n \in Names |-> {}], loops |-> << << >> >>]
+S0 == [cur |-> EmptyScope, usage |-> [u \in 1..MaxId |-> Absent], all |-> [n \in Names |-> {}], loops |-> << << >> >>,
+       phase |-> "collect"]
 
-ImplUsage(prog) == Visit(prog, S0).usage
+RECURSIVE HasKind(_, _)
+HasKind(block, kinds) ==
+    \E i \in 1..Len(block) :
+        LET s == block[i]
+        IN \/ s.k \in kinds
+           \/ s.k \in {"if", "while", "for"} /\ (HasKind(s.body, kinds) \/ HasKind(s.orelse, kinds))
+           \/ s.k = "with" /\ HasKind(s.body, kinds)
+           \/ s.k = "try" /\ (HasKind(s.body, kinds) \/ HasKind(s.orelse, kinds) \/ HasKind(s.final, kinds)
+                              \/ \E j \in 1..Len(s.handlers) : HasKind(s.handlers[j], kinds))
+
+\* The function body is visited twice: collecting, then checking.  The FunctionScope is NOT reset in between
+\* (name_to_current_definition_nodes keeps its final collecting-phase contents), and only lookups from nested
+\* functions add to usage_to_definition_nodes during the second visit.
+ImplUsage(prog) ==
+    LET P1 == Visit(prog, S0)
+    IN IF HasKind(prog, {"defg", "defn"})
+       THEN Visit(prog, [P1 EXCEPT !.phase = "check", !.loops = << << >> >>]).usage
+       ELSE P1.usage
 \* what pyanalyze reports at a use: the definition nodes recorded for it (0 = "may be unbound");
 \* a use without an entry is not a local at all there: undefined_name
 ImplReported(prog, useid) ==
